@@ -156,3 +156,12 @@ Theorem C18_negative_length : forall p family wh ag al n addr addrlen fam2,
   parse_txt_reply_ext true p = (ARES_EBADRESP, []) /\ parse_soa_reply true p = (ARES_EBADRESP, None).
 Proof. exact negative_length. Qed.
 Print Assumptions C18_negative_length.
+
+(* "identical field values" fails for TTLs >= 2^31: (int) conversion (finding ttl-sign) *)
+Theorem C18_ttl_identical_refuted :
+  exists rec r a ttl,
+    parse_addr_reply LEG_AF_INET false (Parsed rec) false true 1 (Some 1) = Ok r /\
+    r_answers rec = [mkRR [119] ARES_CLASS_IN ttl (RD_A a)] /\ 0 <= ttl < 2 ^ 32 /\
+    ar_written r <> [(a, ttl)].
+Proof. exact addr_ttl_identical_refuted. Qed.
+Print Assumptions C18_ttl_identical_refuted.
